@@ -219,7 +219,7 @@ def gen_cases(ctx):
                 cases.append(case_sparse(rng, "perm%d_%d_%s" % (n, mask, "".join(map(str, perm)) or "e"), n, mask, perm=list(perm),
                                          ops=("permute", "ldlperm", "ordering")))
     # (c) random larger
-    nrand, nlim = (300, 8) if quick else (1500, 30)
+    nrand, nlim = (300, 8) if quick else (3000, 30)
     for k in range(nrand):
         n = rng.randint(1, nlim)
         dens = rng.choice([0.1, 0.3, 0.6, 1.0])
@@ -252,12 +252,12 @@ def gen_cases(ctx):
         z = rng.randrange(n // 2, n)
         cases.append(case_dense(rng, "dconz%d" % n, dense_constructed(rng, n, zero_at=z), expect_ret=z, ops=("dense_blocked",)))
     if not quick:
-        for n in (127, 128, 130):
+        for n in (127, 128, 130, 256, 257):    # generic integer entries: exact runs with long fractions (n = 257: ~90 s per side)
             cases.append(case_dense(rng, "dgen%d" % n, dense_generic(rng, n, ints=True), expect_ret=-1, ops=("dense_blocked", "dense_compute")))
     return cases
 
 # ------------------------------------------------------------------ builds
-MODEL_SRC = ["coq/Base.v", "coq/CSC.v", "coq/LDLSparse.v", "coq/LDLDenseNP.v", "ocaml/ExtractC14.v", "ocaml/drv_c14.ml", "ocaml/build_c14.sh", "ocaml/zhelp.ml"]
+MODEL_SRC = ["coq/Base.v", "coq/CSC.v", "coq/LDLSparse.v", "coq/LDLDenseNP.v", "coq/C14LemmasProofs.v", "coq/PatternsProofs.v", "coq/LDLSparseProofs.v", "ocaml/ExtractC14.v", "ocaml/drv_c14.ml", "ocaml/build_c14.sh", "ocaml/zhelp.ml"]
 
 def build_model14(ctx):
     h = hashlib.sha256()
@@ -266,7 +266,7 @@ def build_model14(ctx):
     exe = os.path.join(vlib.CACHE, "drv_c14-%s" % h.hexdigest()[:24])
     if os.path.exists(exe):
         os.utime(exe, None); return exe, "cached"
-    rc, out = vlib.coq_make(ctx, ["Base.vo", "CSC.vo", "LDLSparse.vo", "LDLDenseNP.vo"])
+    rc, out = vlib.coq_make(ctx, ["Base.vo", "CSC.vo", "LDLSparse.vo", "LDLDenseNP.vo", "LDLSparseProofs.vo"])
     if rc != 0: return None, "model does not compile: " + out[-1500:]
     wd = os.path.join(ctx.work, "model14")
     rc, out = vlib.sh([os.path.join(vlib.VERIF, "ocaml", "build_c14.sh"), wd], timeout=900)
@@ -348,9 +348,14 @@ def run_chunk(ctx, idx, chunk, impl, model, timeout):
                 got = da.get("%d.%s" % (op, key))
                 if got != want:
                     finds.append(("oracle", c.name, op, key, "returned %s = %s but the first zero pivot computed independently (python Fractions) gives %s" % (key, got, want), str(got), want))
+        # model-side certificate per tested pattern (upper, full diagonal): index-only check of theorem numeric_erase
+        for k, v in ib:
+            op, key = split_key(k)
+            if key.startswith("model_") and v != "1":
+                finds.append(("oracle", c.name, op, key, "the index-only check of the model fails on this pattern (%s = %s)" % (key, v), "", v))
         # correspondence
         ka = [k for k, _ in ia if not split_key(k)[1].startswith(IGNORE_PREFIX) and split_key(k)[1] not in ("nonfinite", "exception")]
-        kb = [k for k, _ in ib]
+        kb = [k for k, _ in ib if not split_key(k)[1].startswith("model_")]
         for k in sorted(set(ka) | set(kb), key=lambda s: (split_key(s)[0], s)):
             if da.get(k) != db.get(k):
                 op, key = split_key(k)
@@ -372,8 +377,8 @@ def run(ctx):
     cases = gen_cases(ctx)
     byname = {c.name: c for c in cases}
     # big dense cases in their own chunks
-    small = [c for c in cases if len(c.decl) < 200000]
-    large = [c for c in cases if len(c.decl) >= 200000]
+    small = [c for c in cases if len(c.decl) < 30000]
+    large = [c for c in cases if len(c.decl) >= 30000]
     CH = 250
     chunks = [small[i:i + CH] for i in range(0, len(small), CH)] + [[c] for c in large]
     timeout = 100 if ctx.quick() else 1500
@@ -386,8 +391,8 @@ def run(ctx):
     ctx.coverage["evaluations"] = nev
     ctx.coverage["samples"] = [cases[0].text(), cases[len(cases) // 2].text()[:3000]]
     ctx.coverage["rule"] = ("all upper patterns with full diagonal n<=%d (generic values + forced zero pivot); all patterns x all permutations n<=%d; "
-                            "%s random n<=%d; all rectangular patterns of small shapes; dense generic n<=9, 31..40, constructed 127..130, 257(+)"
-                            % ((3, 3, 300, 8) if ctx.quick() else (5, 4, 1500, 30)))
+                            "%s random n<=%d; all rectangular patterns of small shapes; dense generic n<=9, 31..40 (thorough: 127..130, 256, 257), constructed 127..130, 257 (thorough: 64..300)"
+                            % ((3, 3, 300, 8) if ctx.quick() else (5, 4, 3000, 30)))
     corr = [f for f in finds if f[0] == "corr"]
     orac = [f for f in finds if f[0] in ("oracle", "crash")]
     mach = [f for f in finds if f[0] == "machinery"]
